@@ -12,6 +12,8 @@ spec/Balance.tla (+ LinAlg, Balance_MC slices, BalanceTrace).  Directions:
   code -> spec : seeded matrices beyond the bounds (<= 6 species x 5 keys, entries <= 12), many-species
                  finely resolved fractional compositions (scale 10^4 / 10^5, judged on the true integer
                  matrix; unclassified beyond the 32-bit elimination range), many-species
+                 heavily under-determined problems (8..10 species, 3..4 keys) whose mode-None answer is
+                 judged against a planted witness and its own answers for other presentations, many-species
                  single-ray problems (11..14 species, positive solution known by construction and
                  verified by TLC as a Witness) and textbook reactions given as formulas (three of
                  them with 11..13 species) are run through the real code; TLC replays
@@ -62,7 +64,7 @@ FN = "balance_stoichiometry"
 
 # ----------------------------------------------------------------------------- building inputs
 DEFAULT_FORM = {"set": True, "cont": "list", "naming": "plain", "subst": "map", "psym": "default",
-                "num": "int", "calls": 1, "modearg": "plain", "allow": False}
+                "num": "int", "calls": 1, "modearg": "plain", "allow": False, "keys": "plain"}
 
 
 def _form(inp):
@@ -82,13 +84,13 @@ def _names(inp):
     return reac, prod
 
 
-def _composition(inp, j, num="int"):
+def _composition(inp, j, num="int", keys="plain"):
     comp = {}
     for k in range(inp["nk"]):
         v = inp["comp"][k][j]
         if v == 0 and num != "explicit0":
             continue
-        key = 0 if (k + 1) == inp["crow"] else ROW_KEYS[k]
+        key = 0 if (k + 1) == inp["crow"] else (ROW_KEYS[inp["nk"] - 1 - k] if keys == "reversed" else ROW_KEYS[k])
         amount = v if inp["scale"] == 1 else v / inp["scale"]
         comp[key] = float(amount) if num == "float" else amount
     return comp
@@ -99,7 +101,7 @@ def build(inp):
     reac, prod = _names(inp)
     subst = {}
     for j, name in enumerate(reac + prod):
-        subst[name] = Substance(name, composition=_composition(inp, j, _form(inp)["num"]))
+        subst[name] = Substance(name, composition=_composition(inp, j, _form(inp)["num"], _form(inp).get("keys", "plain")))
     return reac, prod, subst
 
 
@@ -140,10 +142,11 @@ def call_args(inp):
 def _q(v):
     """number -> [n, d] (d > 0) or None when it is not an exact rational"""
     import sympy
+    import numbers
     if isinstance(v, bool):
         return None
-    if isinstance(v, int):
-        return [v, 1]
+    if isinstance(v, numbers.Integral):     # int, numpy integers
+        return [int(v), 1]
     if isinstance(v, float):
         return [int(v), 1] if v == v and abs(v) != float("inf") and v.is_integer() else None
     if isinstance(v, sympy.Rational):
@@ -157,6 +160,19 @@ def _encodable(pairs):
 
 
 def project(result, reac, prod):
+    """total: whatever the code returned becomes an observation; anything the projection cannot place
+    in the vocabulary is the sentinel kind "other", which no admissible outcome equals"""
+    n = len(reac) + len(prod)
+    try:
+        return _project(result, reac, prod)
+    except _CallTimeout:
+        raise
+    except Exception as e:
+        return {"k": "other", "exc": "", "x": [[0, 1]] * n, "present": [False] * n, "extra": 0,
+                "x0": [[0, 1]] * n, "vs": [], "sig": "other:projection-%s" % type(e).__name__}
+
+
+def _project(result, reac, prod):
     """(reactant dict, product dict) -> abstract observation (see Balance.tla, 'Observed outcomes')"""
     import sympy
     n = len(reac) + len(prod)
@@ -258,9 +274,32 @@ def _guarded(fn, limit=None):
         signal.signal(signal.SIGALRM, old)
 
 
+_LIMITED = []
+
+
+def _limit_memory():
+    """total observation: a call that allocates without bound ends as a MemoryError observation, not as
+    an OOM-killed worker (address-space limit per process, inherited by the solver subprocess)"""
+    if _LIMITED:
+        return
+    _LIMITED.append(True)
+    try:
+        import multiprocessing
+        import resource
+        if multiprocessing.current_process().name == "MainProcess":
+            return          # the parent also starts the TLC JVMs: only pool workers are limited
+        soft, hard = resource.getrlimit(resource.RLIMIT_AS)
+        cap = 12 * 2 ** 30
+        if soft == resource.RLIM_INFINITY or soft > cap:
+            resource.setrlimit(resource.RLIMIT_AS, (cap, hard))
+    except Exception:
+        pass
+
+
 def observe(inp):
     """call the real code on the abstract problem; never raises"""
     from chempy import balance_stoichiometry
+    _limit_memory()
     reac, prod, creac, cprod, kw = call_args(inp)
 
     def calls():
@@ -276,7 +315,7 @@ def observe(inp):
         res = _guarded(calls, inp.get("timeout") or (3 if inp["scale"] >= 10 ** 4 else None))
     except _CallTimeout:
         return {"k": "unencodable", "sig": "call-timeout"}
-    except Exception as e:  # the class name is the observation
+    except BaseException as e:  # the class name is the observation (also SystemExit, MemoryError ...)
         n = len(reac) + len(prod)
         return {"k": "raise", "exc": type(e).__name__, "x": [[0, 1]] * n, "present": [False] * n,
                 "extra": 0, "x0": [[0, 1]] * n, "vs": [], "sig": "raise:" + type(e).__name__}
@@ -300,6 +339,8 @@ def trace_of(inp, obs):
     ev.append({"ev": "Unclassified" if inp.get("unclassified") else "Classify"})
     if inp.get("witness"):      # a positive balancing vector known by construction; TLC verifies it
         ev.append({"ev": "Witness", "x": list(inp["witness"])})
+    if inp.get("peer"):         # the code's own answer for another presentation of the same problem
+        ev.append({"ev": "Peer", "x": list(inp["peer"])})
     if inp["dupl"]:
         ev.append({"ev": "Dupl", "pairs": [list(p) for p in inp["dupl"]]})
     ev.append({"ev": "Mode", "m": inp["mode"]})
@@ -330,7 +371,7 @@ def hadamard_ok(comp):
     return min(hr, hc) < 32767
 
 
-FORM_KEYS = ("cont", "naming", "subst", "psym", "num", "calls", "modearg", "allow")
+FORM_KEYS = ("cont", "naming", "subst", "psym", "num", "calls", "modearg", "allow", "keys")
 
 
 def rand_form(rng, inp):
@@ -343,7 +384,8 @@ def rand_form(rng, inp):
             "num": rng.choice(["int", "int", "float", "explicit0"]),
             "calls": rng.choice([1, 1, 2]),
             "modearg": "one" if inp["mode"] == "None" and not inp["dupl"] and rng.random() < 0.3 else "plain",
-            "allow": bool(inp["dupl"]) or rng.random() < 0.3}
+            "allow": bool(inp["dupl"]) or rng.random() < 0.3,
+            "keys": rng.choice(["plain", "reversed"])}
 
 
 def problem_text(inp):
@@ -480,8 +522,14 @@ def _formula_problem(item):
     rtxt, ptxt, mode = item[:3]
     witness = item[3] if len(item) > 3 else None
     reac, prod = rtxt.split(), ptxt.split()
-    comps = [Substance.from_formula(f).composition for f in reac + prod]
-    keys = sorted(set(k for c in comps for k in c))
+    try:
+        comps = [Substance.from_formula(f).composition for f in reac + prod]
+        keys = sorted(set(k for c in comps for k in c))
+        ok = all(isinstance(v, (int, float)) and v == v and abs(v) < 1e9 for c in comps for v in c.values())
+    except Exception:
+        return None          # the formula parser is C01's subject; not an observation of C02
+    if not ok:
+        return None
     crow = 0
     if 0 in keys:           # charge row last, as the model has it
         keys = [k for k in keys if k != 0] + [0]
@@ -502,7 +550,7 @@ def _formula_problem(item):
         res = _guarded(lambda: balance_stoichiometry(list(reac), list(prod), underdetermined=MODES[mode]))
     except _CallTimeout:
         return inp, {"k": "unencodable", "sig": "call-timeout"}
-    except Exception as e:
+    except BaseException as e:
         n = len(reac) + len(prod)
         obs = {"k": "raise", "exc": type(e).__name__, "x": [[0, 1]] * n, "present": [False] * n,
                "extra": 0, "x0": [[0, 1]] * n, "vs": [], "sig": "raise:" + type(e).__name__}
@@ -565,6 +613,69 @@ def _fine(rng, n_problems):
             out.append({"nr": nr, "np": n - nr, "nk": nk, "crow": 0, "scale": scale, "comp": comp,
                         "mode": mode, "dupl": [], "unclassified": not hadamard_ok(comp), "timeout": 3})
     return out[:n_problems]
+
+
+HARD_AMOUNTS = [1, 2, 3, 5, 7, 11, 13, 17, 19, 23, 29, 31]
+HARD_FORMS = [dict(DEFAULT_FORM),
+              dict(DEFAULT_FORM, cont="set", naming="reversed", keys="reversed"),
+              dict(DEFAULT_FORM, keys="reversed", cont="tuple")]
+
+
+def _hard(rng, n_problems):
+    """heavily under-determined problems for the minimal-sum clause of mode None: 8..10 species, 3..4 keys
+    (null space of dimension >= 4), large pairwise coprime amounts, a planted positive solution with
+    entries up to 12 (so minimal sums of 25..100).  TLC cannot compute the minimum here; the answer is
+    judged against the planted witness and against the code's own answers for other presentations of
+    the same problem (Balance!Witness, Balance!Peer).  Each problem comes in len(HARD_FORMS)
+    presentations (species / key order)."""
+    out = []
+    while len(out) < n_problems:
+        n = rng.randint(8, 10)
+        nk = rng.randint(3, 4)
+        nr = rng.randint(3, n - 3)
+        cols = []
+        for _ in range(n):
+            while True:
+                c = [rng.choice(HARD_AMOUNTS) if rng.random() < 0.7 else 0 for _ in range(nk)]
+                if any(c):
+                    cols.append(c)
+                    break
+        x = [rng.randint(1, 12) for _ in range(n)]
+        x[-1] = rng.choice([1, 1, 2, 3])
+        last = []
+        for k in range(nk):
+            t = -sum((-1 if j < nr else 1) * x[j] * cols[j][k] for j in range(n - 1))
+            if t < 0 or t % x[-1]:
+                last = None
+                break
+            last.append(t // x[-1])
+        if not last or not any(last) or max(last) > 99:
+            continue
+        cols[-1] = last
+        comp = [[cols[j][k] for j in range(n)] for k in range(nk)]
+        out.append([{"nr": nr, "np": n - nr, "nk": nk, "crow": 0, "scale": 1, "comp": comp, "mode": "None",
+                     "dupl": [], "witness": list(x), "unclassified": not hadamard_ok(comp),
+                     "form": dict(f), "timeout": 5} for f in HARD_FORMS])
+    return out
+
+
+def _catalog(rng, n_problems):
+    """instances of the same class selected by the EFFORT an exact integer program needs (CBC
+    branch-and-bound nodes: 4 below 100, 8 in 900..1300, 28 in 1600..8300), each with a positive
+    solution of proven minimal sum as its witness (harness/c02_hard_catalog.json; the witness is checked
+    by TLC like any other).  A solver that gives up early returns an answer above the witness sum."""
+    import os
+    path = os.path.join(os.path.dirname(os.path.dirname(os.path.abspath(__file__))), "c02_hard_catalog.json")
+    cat = json.load(open(path))
+    if n_problems < len(cat):
+        cat = rng.sample(cat, n_problems)
+    out = []
+    for c in cat:
+        out.append([{"nr": c["nr"], "np": c["np"], "nk": c["nk"], "crow": 0, "scale": 1, "comp": c["comp"],
+                     "mode": "None", "dupl": [], "witness": list(c["witness"]),
+                     "unclassified": not hadamard_ok(c["comp"]), "form": dict(f), "timeout": 30}
+                    for f in HARD_FORMS[:2]])
+    return out
 
 
 def _seeded(rng, n_problems):
@@ -765,6 +876,26 @@ def run(ctx):
             continue
         batch.append((inp, obs, None, "code->spec", "BalanceTrace.cfg"))
     ctx.counters["fine_fraction_problems"] += len(fine)
+
+    # heavily under-determined problems: minimal sum judged against the planted witness and the peers
+    hard = _catalog(ctx.rng, 40) + _hard(ctx.rng, 4 if ctx.quick else 150)
+    flat = [inp for group in hard for inp in group]
+    outs = ctx.pmap(_observe_inp, flat)
+    it = iter(outs)
+    for group in hard:
+        obs = [next(it) for _ in group]
+        for i, (inp, o) in enumerate(zip(group, obs)):
+            ctx.ran(matrix_id(inp))
+            if o["k"] == "unencodable" or not rational_obs_ok(inp, o):
+                ctx.skip(o.get("sig") if o.get("sig") == "call-timeout" else "unencodable-observation")
+                continue
+            others = [[v[0] for v in p["x"]] for j, p in enumerate(obs) if j != i
+                      and p["k"] == "num" and all(p["present"]) and all(d == 1 for _, d in p["x"])
+                      and sum(abs(v[0]) for v in p["x"]) <= INT_LIMIT]
+            if others:
+                inp["peer"] = min(others, key=lambda v: sum(abs(c) for c in v))
+            batch.append((inp, o, None, "code->spec", "BalanceTrace.cfg"))
+    ctx.counters["hard_minsum_problems"] += len(hard)
 
     # many-species problems (11..14) with a positive solution known by construction
     big = _trees(ctx.rng, 150 if ctx.quick else 1500)
